@@ -28,3 +28,7 @@ claim("C08", "must-contain-check table over translation arms and prelude helpers
 claim("C14", "abstract evaluation of the literal encoder over all 256 byte values, rune/byte dispatch table, bounds obligations, encoding boundary constants",
       "Decides exactly which bytes encodeString emits raw (256 obligations), that conversions/range/copy/append pick rune vs byte helpers by element type, that string index/slice are bounds-checked, and that the UTF-8/UTF-16 routines contain every boundary constant with matching widths. Does not decide decoder correctness on all byte sequences.",
       TB, "DESIGN.md §3 C14")
+
+claim("C17", "determinism lint: classification of every map-iteration body on the compile/link path, nondeterminism-source scan, sort obligations",
+      "Decides that every iteration over a map or hash-ordered container in the packages producing compiler output is order-insensitive (keyed stores, monotone marking, appends sorted before use, existence tests), that no clock/random/process source is consulted there, and that files/imports/sources/local names/dependency names are sorted. This is the rule that found the map-ordered instance propagation repaired in e9e4887. Does not decide byte identity across runs as such.",
+      TB, "DESIGN.md §2.3, §3 C17")
